@@ -6,10 +6,11 @@
 From Coq Require Import String.
 From Coq Require Import NArith ZArith Arith List Lia Bool.
 From Pq Require Import Base.Bytes Base.Bits Base.ListX Proofs.BytesProofs Proofs.ListXProofs Proofs.CodecProofs
-  Codec.Varint Codec.Bitpack Codec.Hybrid Thrift.Compact Format.Phys Format.Meta Format.Page Format.Enc
+  Codec.Varint Codec.Bitpack Codec.Hybrid Thrift.Compact Format.Phys Format.Meta Format.Page Format.ChunkLayout Format.File Format.Enc
   Impl.WLevels Impl.WPagesFmt Impl.WChunk Impl.RPages.
-From Pq Require Import Proofs.HybridProofs Proofs.FormatCodecProofs Proofs.FormatPageProofs Proofs.RPagesProofs Proofs.WChunkProofs.
+From Pq Require Import Proofs.HybridProofs Proofs.FormatCodecProofs Proofs.FormatPageProofs Proofs.FormatFileProofs Proofs.RPagesProofs Proofs.WChunkProofs.
 From Pq Require Proofs.WLevelsProofs.
+From Pq Require Import Proofs.ChunkLayoutProofs Proofs.FormatChunkProofs.
 Import ListNotations.
 Open Scope N_scope.
 
@@ -215,6 +216,166 @@ Proof.
   rewrite N.eqb_refl. cbn [guard rbind k_nvals k_enc]. rewrite z2n_of_N. cbn [rbind Z.eqb E_PLAIN orb negb].
   destruct (w_plain_dec (wc_type c) (wc_tlen c) labels [] OK) as (r' & PD). rewrite app_nil_r in PD.
   cbn [cd_of cd_type cd_tlen]. rewrite PD. reflexivity.
+Qed.
+
+(* ---- the page loop of the specification's chunk scan over the writer's chunk bytes ------------------------------- *)
+Definition w_summary (hp : phdr * bytes) : page :=
+  {| p_kind := pkind_of (ph_body (fst hp)); p_hdr := Z.of_N (lenN (enc_phdr (fst hp))); p_comp := ph_csize (fst hp);
+     p_uncomp := ph_usize (fst hp); p_nvals := pnvals_of (ph_body (fst hp)); p_enc := penc_of (ph_body (fst hp)) |}.
+
+Lemma w_data_csize c p : ph_csize (fst (w_data_page compress c p)) = Z.of_N (lenN (snd (w_data_page compress c p))).
+Proof.
+  unfold w_data_page. destruct (wc_v2 c); cbn [fst snd ph_csize]; [|reflexivity].
+  rewrite <- N2Z.inj_add. f_equal. rewrite !lenN_ok, app_length. lia.
+Qed.
+
+Definition w_page_nulls (p : wpage) : N := w_rows p - w_nonnull p.
+
+Theorem scan_pages_writer c : forall ps clock pages cells0 nulls cells,
+  Forall (wp_ok c) ps ->
+  Forall (fun p => phdr_wf (fst (w_data_page compress c p)) = true) ps ->
+  w_pages_cells c ps = Some cells ->
+  (length (concat (map (wp_bytes compress c) ps)) <= length clock)%nat ->
+  scan_pages decompress clock false (cd_of c) (wc_codec c) (wc_labels c) (concat (map (wp_bytes compress c) ps)) pages cells0 nulls
+  = ROk (rev pages ++ map (fun p => w_summary (w_data_page compress c p)) ps, rev cells0 ++ cells,
+         nulls + sumN (map w_page_nulls ps)).
+Proof.
+  induction ps as [|p r IH]; intros clock pages cells0 nulls cells W HW C L.
+  - cbn [w_pages_cells] in C. injection C as <-. cbn [map concat scan_pages].
+    destruct clock; cbn [scan_pages]; rewrite !rev_append_rev, !app_nil_r; unfold sumN; cbn; now rewrite N.add_0_r.
+  - assert (Wp : wp_ok c p) by (inversion W; assumption).
+    assert (Wr : Forall (wp_ok c) r) by (inversion W; assumption).
+    assert (Hp : phdr_wf (fst (w_data_page compress c p)) = true) by (inversion HW; assumption).
+    assert (Hr : Forall (fun p => phdr_wf (fst (w_data_page compress c p)) = true) r) by (inversion HW; assumption).
+    cbn [w_pages_cells] in C.
+    destruct (w_page_cells c p) as [cs|] eqn:PC; [|discriminate].
+    destruct (w_pages_cells c r) as [cr|] eqn:PCr; [|discriminate]. injection C as <-.
+    cbn [map concat] in L |- *. unfold wp_bytes at 1. unfold wp_bytes at 1 in L.
+    set (hp := w_data_page compress c p) in *.
+    set (restb := concat (map (wp_bytes compress c) r)) in *.
+    destruct (page_bytes_shape hp restb) as (x & l & B & E). rewrite B in *.
+    destruct clock as [|c0 clock']; [cbn [length] in L; lia|].
+    cbn [scan_pages].
+    replace (x :: l ++ snd hp ++ restb) with (enc_phdr (fst hp) ++ (snd hp ++ restb)) by (rewrite E; reflexivity).
+    rewrite phdr_roundtrip by exact Hp. cbn [rbind].
+    assert (L' : (length restb <= length clock')%nat) by (cbn [length] in L; rewrite !app_length in L; lia).
+    unfold hp at 1. rewrite w_data_csize. fold hp. rewrite z2n_of_N. cbn [rbind].
+    assert (G : (lenN (snd hp) <=? lenN (snd hp ++ restb)) = true) by (apply N.leb_le; rewrite !lenN_ok, app_length; lia).
+    rewrite G. cbn [guard rbind].
+    rewrite FormatPageProofs.takeN_app_exact, FormatPageProofs.dropN_app_exact.
+    assert (DP : dec_page decompress false (cd_of c) (wc_codec c) (wc_labels c) (fst hp) (snd hp)
+                 = ROk (CData (w_rows p) (w_rows p - w_nonnull p) cs)).
+    { unfold hp. destruct (wc_v2 c) eqn:V2; [apply spec_page_v2_writer|apply spec_page_v1_writer]; assumption. }
+    rewrite DP. cbn [rbind].
+    rewrite (IH clock' _ _ _ cr Wr Hr eq_refl L').
+    cbn [map rev]. rewrite sumN_cons. unfold w_page_nulls at 2.
+    rewrite rev_append_rev, rev_app_distr, rev_involutive, <- !app_assoc. cbn [app].
+    unfold w_summary, hp. f_equal. f_equal. lia.
+Qed.
+
+(* the whole chunk: the dictionary page of a categorical (if any), then the data pages *)
+Definition w_chunk_summaries (c : wchunk) : list page :=
+  (match wc_labels c with Some labels => [w_summary (w_dict_page compress c labels)] | None => [] end)
+  ++ map (fun p => w_summary (w_data_page compress c p)) (wc_pages c).
+
+Definition w_chunk_nulls (c : wchunk) : N := sumN (map w_page_nulls (wc_pages c)).
+
+Theorem scan_chunk_writer c clock cells :
+  wchunk_ok compress c -> w_chunk_cells c = Some cells ->
+  (length (w_chunk compress c) <= length clock)%nat ->
+  scan_pages decompress clock false (cd_of c) (wc_codec c) None (w_chunk compress c) [] [] 0
+  = ROk (w_chunk_summaries c, cells, w_chunk_nulls c).
+Proof.
+  intros (W & HW & LAB) C L. unfold w_chunk, w_chunk_summaries, w_chunk_nulls in *. unfold w_chunk_cells in C.
+  destruct (wc_labels c) as [labels|] eqn:LBL.
+  - destruct LAB as [HD VD].
+    set (hp := w_dict_page compress c labels) in *.
+    set (restb := concat (map (fun p => w_page_bytes (w_data_page compress c p)) (wc_pages c))) in *.
+    destruct (page_bytes_shape hp restb) as (x & l & B & E). rewrite B in *.
+    destruct clock as [|c0 clock']; [cbn [length] in L; lia|].
+    cbn [scan_pages].
+    replace (x :: l ++ snd hp ++ restb) with (enc_phdr (fst hp) ++ (snd hp ++ restb)) by (rewrite E; reflexivity).
+    rewrite phdr_roundtrip by exact HD. cbn [rbind].
+    assert (L' : (length restb <= length clock')%nat) by (cbn [length] in L; rewrite !app_length in L; lia).
+    assert (CS : ph_csize (fst hp) = Z.of_N (lenN (snd hp))) by reflexivity.
+    rewrite CS, z2n_of_N. cbn [rbind].
+    assert (G : (lenN (snd hp) <=? lenN (snd hp ++ restb)) = true) by (apply N.leb_le; rewrite !lenN_ok, app_length; lia).
+    rewrite G. cbn [guard rbind].
+    rewrite FormatPageProofs.takeN_app_exact, FormatPageProofs.dropN_app_exact.
+    unfold hp at 1 2. rewrite (spec_dict_page_writer c labels VD). cbn [rbind].
+    pose proof (scan_pages_writer c (wc_pages c) clock' [w_summary hp] [] 0 cells W HW) as SP.
+    rewrite LBL in SP. unfold wp_bytes in SP. fold restb in SP.
+    assert (SM : {| p_kind := pkind_of (ph_body (fst hp)); p_hdr := Z.of_N (lenN (enc_phdr (fst hp))); p_comp := Z.of_N (lenN (snd hp));
+                    p_uncomp := ph_usize (fst hp); p_nvals := pnvals_of (ph_body (fst hp)); p_enc := penc_of (ph_body (fst hp)) |}
+                 = w_summary hp) by reflexivity.
+    rewrite SM. rewrite SP by (try exact C; try exact L'). reflexivity.
+  - cbn [app] in *.
+    pose proof (scan_pages_writer c (wc_pages c) clock [] [] 0 cells W HW) as SP.
+    rewrite LBL in SP. unfold wp_bytes in SP. rewrite SP by (try exact C; try exact L). reflexivity.
+Qed.
+
+(* ---- bookkeeping: the summaries of the writer's pages are what C02_fp_write_chunk_valid asks for --------------------- *)
+Lemma w_summary_sane hp : (exists a b, ph_csize (fst hp) = Z.of_N a /\ ph_usize (fst hp) = Z.of_N b) ->
+  (0 <=? pnvals_of (ph_body (fst hp)))%Z = true -> sane (w_summary hp) = true.
+Proof.
+  intros (a & b & CA & CB) NV. unfold sane, w_summary. cbn [p_hdr p_comp p_uncomp p_nvals]. rewrite CA, CB, NV.
+  destruct (enc_phdr_nonempty (fst hp)) as (x & l & E). rewrite E.
+  assert (P : (0 <? Z.of_N (lenN (x :: l)))%Z = true) by (apply Z.ltb_lt; rewrite lenN_ok; cbn [length]; lia).
+  assert (A1 : (0 <=? Z.of_N a)%Z = true) by (apply Z.leb_le; lia).
+  assert (B1 : (0 <=? Z.of_N b)%Z = true) by (apply Z.leb_le; lia).
+  rewrite P, A1, B1. reflexivity.
+Qed.
+
+Lemma w_data_summary_sane c p : sane (w_summary (w_data_page compress c p)) = true.
+Proof.
+  apply w_summary_sane.
+  - unfold w_data_page. destruct (wc_v2 c); cbn [fst ph_csize ph_usize].
+    + exists (lenN (w_defs c p) + lenN (deflate compress (wc_codec c) (w_values c p))), (lenN (w_defs c p) + lenN (w_values c p)).
+      now rewrite !N2Z.inj_add.
+    + eexists _, _. split; reflexivity.
+  - unfold w_data_page. destruct (wc_v2 c); cbn [fst ph_body pnvals_of d2_nvals d_nvals]; apply Z.leb_le; lia.
+Qed.
+
+Lemma w_data_summary_is_data c p : is_data (w_summary (w_data_page compress c p)) = true.
+Proof. unfold w_data_page, is_data, w_summary. destruct (wc_v2 c); reflexivity. Qed.
+
+Lemma w_dict_summary_sane c labels : sane (w_summary (w_dict_page compress c labels)) = true.
+Proof.
+  apply w_summary_sane.
+  - unfold w_dict_page. cbn [fst ph_csize ph_usize]. eexists _, _. split; reflexivity.
+  - unfold w_dict_page. cbn [fst ph_body pnvals_of k_nvals]. apply Z.leb_le. lia.
+Qed.
+
+(* THE C02 STATEMENT for every page kind: a chunk of the writer model (any pages: v1 / v2, PLAIN incl. BOOLEAN, dictionary-encoded with
+   its dictionary page, any codec) whose ColumnMetaData are those of the pos/diff bookkeeping over the pages written
+   (a) is scanned by the specification's page loop to exactly the column, its pages and its NULL count, and
+   (b) passes the validator's chunk check. *)
+Theorem fp_write_chunk_all_kinds c clock cells (m : cmd) rg start encs :
+  wchunk_ok compress c -> w_chunk_cells c = Some cells -> wc_pages c <> [] ->
+  (length (w_chunk compress c) <= length clock)%nat ->
+  let ps := w_chunk_summaries c in
+  forallb (fun p => existsb (Z.eqb (p_enc p)) encs) ps = true ->
+  cmeta_of m = wr_bookkeeping start (sumZ (map p_nvals (filter is_data ps))) encs ps ->
+  cm_nvals m = rg_nrows rg ->
+  (cm_null_count m = None \/ cm_null_count m = Some (Z.of_N (w_chunk_nulls c))) ->
+  scan_pages decompress clock false (cd_of c) (wc_codec c) None (w_chunk compress c) [] [] 0 = ROk (ps, cells, w_chunk_nulls c) /\
+  valid_chunk rg (CHere {| co_meta := m; co_pages := ps; co_cells := cells; co_nulls := w_chunk_nulls c |}) = ROk tt.
+Proof.
+  intros WOK C NE L ps ENC BK NV NC. split; [exact (scan_chunk_writer c clock cells WOK C L)|].
+  assert (DS : forallb is_data (map (fun p => w_summary (w_data_page compress c p)) (wc_pages c)) = true).
+  { apply forallb_forall. intros x Hx. apply in_map_iff in Hx. destruct Hx as (p & <- & _). apply w_data_summary_is_data. }
+  assert (SS : forallb sane (map (fun p => w_summary (w_data_page compress c p)) (wc_pages c)) = true).
+  { apply forallb_forall. intros x Hx. apply in_map_iff in Hx. destruct Hx as (p & <- & _). apply w_data_summary_sane. }
+  assert (MN : map (fun p => w_summary (w_data_page compress c p)) (wc_pages c) <> []).
+  { destruct (wc_pages c); [contradiction|discriminate]. }
+  apply (fp_write_chunk_valid start encs ps m cells (w_chunk_nulls c) rg); try assumption; unfold ps, w_chunk_summaries in *.
+  - destruct (wc_labels c); cbn [app]; [discriminate|exact MN].
+  - destruct (wc_labels c); cbn [app tl]; [exact DS|].
+    destruct (map _ (wc_pages c)) as [|y ys]; [reflexivity|]. cbn [forallb tl] in *. apply andb_true_iff in DS. tauto.
+  - destruct (wc_labels c); cbn [app hd tl]; intros H; [exact MN|].
+    destruct (map _ (wc_pages c)) as [|y ys]; [contradiction|]. cbn [hd forallb] in *. apply andb_true_iff in DS. destruct DS as [D _].
+    rewrite D in H. discriminate.
+  - destruct (wc_labels c); cbn [app forallb]; [rewrite w_dict_summary_sane; exact SS|exact SS].
 Qed.
 
 End WithCodecs.
